@@ -184,7 +184,8 @@ def value_cases(run, descs):
         if texts != mtexts and not raw_layout:
             run.disagree(case, mtexts, texts)
         # --- the property on the real code: well-formed fragment in the types namespace, decode gives the value back
-        doc = '<uax:Value xmlns:uax="%s">%s</uax:Value>' % (NS_XSD, texts[0])
+        # the element is decoded where it sits in a document: the ancestors declare prefixes the value does not use
+        doc = '<uax:Value xmlns:uax="%s" xmlns:xsd="http://www.w3.org/2001/XMLSchema" xmlns:xsi="http://www.w3.org/2001/XMLSchema-instance">%s</uax:Value>' % (NS_XSD, texts[0])
         problem = None
         try:
             el = ET.fromstring(doc.encode("utf-8"))
@@ -203,6 +204,9 @@ def value_cases(run, descs):
                 if want != got:
                     problem = {"what": "decode(encode(v)) != v", "text": texts[0][:600], "impl": back, "expected": v,
                                "call": "opcua_tools.value_parser.parse_value(<Value>) after value.xml_encode(True)"}
+                elif "XMLSchema" in json.dumps(back) and "XMLSchema" not in json.dumps(v):
+                    problem = {"what": "the decoded raw XML carries namespace declarations of the surrounding document (decode(encode(v)) != v as text)",
+                               "impl": back, "expected": v, "call": "opcua_tools.value_parser.parse_value(<Value>) inside a document"}
                 if supported:
                     dec_ops.append({"op": "value.decode", "elem": xmltree.resolved(top)})
                     dec_plan.append((case, back))
